@@ -52,7 +52,9 @@ class Budget:
 
     def __enter__(self):
         self._old = signal.signal(signal.SIGALRM, self._fire)
-        signal.setitimer(signal.ITIMER_REAL, self.seconds)
+        # repeating: code under test may swallow the exception (a bare `except:` around a callback, as in Twisted's
+        # Deferred); the alarm then fires again every 50 ms until the exception escapes
+        signal.setitimer(signal.ITIMER_REAL, self.seconds, 0.05)
         return self
 
     def __exit__(self, *exc):
